@@ -27,7 +27,8 @@ def perturb(g, rng, rel, ab):
     small = 1 + rel / 2 if rel > 0 else 1.0
     kinds = ["none", "mig_order", "descriptions", "header_nonsemantic", "anc_order", "deme_order", "epoch_value_big", "epoch_value_small",
              "epoch_drop", "mig_value_big", "mig_value_small", "pulse_value_big", "pulse_swap", "time_units", "generation_time",
-             "start_time_big", "deme_rename", "pulse_drop", "mig_drop", "pulse_props_permute", "pulse_props_permute", "anc_props_permute"]
+             "start_time_big", "deme_rename", "pulse_drop", "mig_drop", "pulse_props_permute", "pulse_props_permute", "anc_props_permute",
+             "zero_time_abs_big", "zero_time_abs_big", "zero_time_abs_small"]
     kind = rng.choice(kinds)
     exp = None
     if kind == "none":
@@ -91,16 +92,32 @@ def perturb(g, rng, rel, ab):
             exp = False if abs(old - old / big) > 2 * ab else None
         else:
             exp = True
+    elif kind in ("zero_time_abs_big", "zero_time_abs_small"):
+        # a time that is 0 moved off 0: only the ABSOLUTE tolerance can call the two close
+        slots = [m for m in d["migrations"] if m["end_time"] == 0]
+        if rng.random() < 0.3 or not slots:
+            slots = slots + [dm["epochs"][-1] for dm in d["demes"] if dm["epochs"][-1]["end_time"] == 0]
+        if slots:
+            x = rng.choice(slots)
+            if kind.endswith("big"):
+                x["end_time"] = 2.0 ** -35 if ab < 2.0 ** -37 else 4 * ab
+                exp = False
+            elif ab > 0:
+                x["end_time"] = ab / 2; exp = True
+            else:
+                exp = True
+        else:
+            exp = True
     elif kind == "pulse_props_permute":
         # same sources, proportions attached to different sources
-        cands = [p for p in d["pulses"] if len(p["sources"]) > 1 and len(set(p["proportions"])) > 1]
+        cands = [p for p in d["pulses"] if len(p["sources"]) > 1 and max(p["proportions"]) - min(p["proportions"]) > 1e-3]
         if cands:
             p = rng.choice(cands)
             p["proportions"].reverse(); exp = False
         else:
             exp = True
     elif kind == "anc_props_permute":
-        cands = [dm for dm in d["demes"] if len(dm["ancestors"]) > 1 and len(set(dm["proportions"])) > 1]
+        cands = [dm for dm in d["demes"] if len(dm["ancestors"]) > 1 and max(dm["proportions"]) - min(dm["proportions"]) > 1e-3]
         if cands:
             dm = rng.choice(cands)
             dm["proportions"].reverse(); exp = False
